@@ -114,7 +114,9 @@ def compute_value(nspec: dict, kw: dict, kd: str):
     rec = nspec.get('rec')
     if rec:
         cnt = lin.get(rec['start'], 0)
-        if cnt < rec['k']:
+        # nested subgraphs: every iteration of an enclosing subgraph makes the inner destination ask for k more
+        others = max([c for st, c in lin.items() if st != rec['start']] + [0])
+        if cnt < rec['k'] * (1 + others):
             return ('R', cnt + 1)
     return ('v', name, kd, tuple(sorted(lin.items())))
 
